@@ -933,6 +933,11 @@ where
     }
 }
 
+thread_local! {
+    /// the block the closure of `alloc_try_with` allocated through the same arena (it stays live whatever the closure returns)
+    pub static INNER_BLOCK: std::cell::Cell<Option<(usize, usize, usize)>> = const { std::cell::Cell::new(None) };
+}
+
 fn alloc_try_with_on<A, S>(scope: &mut BumpScope<'_, A, S>, mutable: bool, ok: bool, inner_alloc: Option<Layout>, try_: bool) -> Result<Blk, ()>
 where
     A: BaseAllocator<S::GuaranteedAllocated> + SlabKind,
@@ -953,7 +958,9 @@ where
         let sc: &BumpScope<'_, A, S> = scope;
         let f = || {
             if let Some(l) = inner_alloc {
-                let _ = Allocator::allocate(sc, l);
+                if let Ok(p) = Allocator::allocate(sc, l) {
+                    INNER_BLOCK.with(|c| c.set(Some((p.cast::<u8>().as_ptr() as usize, l.size(), l.align()))));
+                }
             }
             if ok { Ok(val) } else { Err(()) }
         };
@@ -1056,7 +1063,9 @@ where
             let sc: &Bump<A, S> = self;
             let f = || {
                 if let Some(l) = inner_alloc {
-                    let _ = Allocator::allocate(sc, l);
+                    if let Ok(p) = Allocator::allocate(sc, l) {
+                        INNER_BLOCK.with(|c| c.set(Some((p.cast::<u8>().as_ptr() as usize, l.size(), l.align()))));
+                    }
                 }
                 if ok { Ok(val) } else { Err(()) }
             };
